@@ -44,6 +44,8 @@ def classify(d):
         return 'frames-forwarded-that-the-datagram-does-not-contain'
     if code == 82:
         return 'stack-grows-with-every-datagram'
+    if code == 84:
+        return 'listener-terminated-instead-of-processing-the-next-datagram'
     if code == 83:
         return 'valid-packet-of-a-long-stream-not-forwarded'
     if code == 80:
